@@ -50,6 +50,7 @@ class NestedScheduler(BaseScheduler):
 
         self.raise_interrupt = raise_interrupt
         self.interrupts: Set[ComponentID] = set()
+        self._initial_tick_done = False
         self.component_error: ComponentException
 
     @staticmethod
@@ -133,6 +134,9 @@ class NestedScheduler(BaseScheduler):
             *wakeup_components,
             ComponentID("external"),
         }
+        if not self._initial_tick_done:
+            root_components.update(self.ticker.components)
+            self._initial_tick_done = True
         for component in wakeup_components:
             del self.wakeups[component]
         self.interrupts.clear()
